@@ -356,3 +356,38 @@ func TestC05(t *testing.T) {
 		Col.CaseN(p.Hash(), st.distinct, st.insideRound, st.samples, st.labels)
 	})
 }
+
+func TestC06(t *testing.T) {
+	spec := &GenSpec{Prop: "C06", Backings: []string{"store"}, MaxOps: 16, Reopen: true, BigBatches: true,
+		Children: exclChildren("C06"), Compaction: []int{0, 1, 2, 2}}
+	applyExclusions(spec)
+	thorough := os.Getenv("VERIF_TIER") == "thorough"
+	Col.SetProp("C06", "a generated store-backed workload (batches, persistence rounds incl. partial / full / idle compactions, drain+reopen) runs fault-free once to count its file operations, then again once per injected fault: site = index of a file operation (quick: 12 generated sites per workload; thorough: every site up to 150) x kind by the operation hit (create/open error, WriteAt error, short write of 0% / 50% with io.ErrShortWrite, Sync error, Stat error) x shape (single, burst of 2-5 consecutive operations, persistent until a generated later step). After every step: collection == reference; Store.Snapshot() == the reference prefix covered by the rounds that reported success (a round that ends without OnError must really contain its batches - checked by reading everything); after a failed round (surfaced through OnError, which the controller requires) a copy of the directory must reopen to a batch prefix no shorter than that; once faults stop, draining must reach the full reference in the store and after reopen. evaluations = faulted runs. Non-trivial: the fault was actually hit (wrapper counter). Distinct = distinct (program, fault).")
+	rapid.Check(t, func(rt *rapid.T) {
+		p, _ := genHistory(rt, spec)
+		x := C06Extra{All: thorough}
+		if !thorough {
+			for i := 0; i < 12; i++ {
+				f := FaultSpec{Site: rapid.IntRange(0, 400).Draw(rt, "site"), ShortPct: -1}
+				switch pick(rt, "shape", 50, 25, 25) {
+				case 0:
+					f.Shape = "single"
+				case 1:
+					f.Shape, f.K = "burst", rapid.IntRange(2, 5).Draw(rt, "k")
+				case 2:
+					f.Shape, f.UntilStep = "until", rapid.IntRange(1, 16).Draw(rt, "until")
+				}
+				if chance(rt, "short", 40) {
+					f.ShortPct = rapid.SampledFrom([]int{0, 50, 99}).Draw(rt, "shortpct")
+				}
+				x.Faults = append(x.Faults, f)
+			}
+		}
+		b, _ := json.Marshal(&x)
+		p.Extra = b
+		st := RunC06(rt, p)
+		Col.AddExtra("workloads", 1)
+		Col.AddExtra("file_ops_in_baselines", st.baselineN)
+		Col.CaseN(p.Hash(), st.runs, st.hit, st.samples, st.labels)
+	})
+}
